@@ -8,6 +8,7 @@ import inspect
 import weakref
 
 from twisted.internet import defer
+from twisted.python import log
 from zope.interface import implementer, Interface
 
 from txdbus import error, interface, introspection, marshal, message
@@ -144,8 +145,12 @@ class RemoteDBusObject :
         Called by the L{DBusObjectHandler} when the connection is lost
         """
         if self._disconnectCBs:
-            for cb in self._disconnectCBs:
-                cb(self, reason)
+            for cb in list(self._disconnectCBs):
+                try:
+                    cb(self, reason)
+                except BaseException:
+                    # the other callbacks (and proxies) are still owed theirs
+                    log.err()
 
     def notifyOnSignal(self, signalName, callback, interface=None):
         """
